@@ -163,6 +163,13 @@ def setup(x, sc, D):
     return ctx
 
 
+def reap_kw(sc):
+    # (Harvester crops are also reaped with the overwriting policy)
+    if sc["farmer"] == "harvester" and sc.get("overwrite"):
+        return {"overwrite": True}
+    return {}
+
+
 def victim(x, sc, D):
     phase = sc["phase"]
     if phase in ("sow", "resow"):
@@ -180,7 +187,7 @@ def victim(x, sc, D):
         miss = crop.missing_results()
         x.grow(miss[0] if miss else 1, crop=crop, verbosity=0)
     elif phase == "reap":
-        crop.reap()
+        crop.reap(**reap_kw(sc))
 
 
 def sown_files_sound(x, sc, D):
@@ -230,12 +237,12 @@ def recover(x, sc, D):
     crop = x.Crop(name="c10", parent_dir=D)
     crop.check_bad()
     crop.grow_missing()
-    return crop.reap()
+    return crop.reap(**reap_kw(sc))
 
 
 def immediate(x, sc, D):
     crop = x.Crop(name="c10", parent_dir=D)
-    return crop.reap()
+    return crop.reap(**reap_kw(sc))
 
 
 # ------------------------------------------------------------ child running
@@ -378,7 +385,7 @@ def check_delivery(x, sc, D, res, ctx, tag, batches=None):
             n_rows=sc["N"], tag=tag)
 
 
-def check_store(x, sc, D, ctx, tag, need_new):
+def check_store(x, sc, D, ctx, tag, need_new, delivered=None):
     """Earlier data must have survived (and the new data be there)."""
     kind = sc["farmer"]
     if sc.get("no_pre") and not need_new:
@@ -431,6 +438,12 @@ def check_store(x, sc, D, ctx, tag, need_new):
                     "new-samples-missing",
                     f"{tag}: {len(df)} rows, expected at least "
                     f"{len(ctx['pre_rows'])} + {sc['N']}")
+            # as after an uninterrupted run, the rows that the (last) reap
+            # handed to the caller are rows of the table
+            for r in (_rows(delivered) if delivered is not None else ()):
+                require(have[r] >= 1, "delivered-rows-not-in-table",
+                        f"{tag}: the reap returned the row {r} but the "
+                        f"sampler's file does not hold it")
 
 
 # ------------------------------------------------------------------ run_case
@@ -510,7 +523,9 @@ def run_case(case):
                           f"({case.get('op')}) raised {payload[1][0]}: "
                           f"{payload[1][1]}\n{payload[1][2]}")
         check_delivery(x, sc, D, payload[1], ctx, "recovery")
-        check_store(x, sc, D, ctx, "after recovery", need_new=True)
+        check_store(x, sc, D, ctx, "after recovery", need_new=True,
+                    delivered=payload[1] if sc["farmer"] == "sampler"
+                    else None)
     op = case.get("op", ["?"])[0]
     nt = prefix is not None or op in ("rmtree-unlink", "rmtree-rmdir",
                                       "save-torn", "save-begin") or \
@@ -580,6 +595,8 @@ def scenarios(tier, seed):
                     sc["engine"] = "joblib"
                 if farmer == "harvester" and r % 3 == 0:
                     sc["chunks"] = 2
+                if farmer == "harvester" and rng.random() < 0.5:
+                    sc["overwrite"] = True
                 if farmer == "sampler" and r % 3 == 1:
                     sc["bare_name"] = True
                 if farmer == "sampler" and r % 3 == 0:
